@@ -83,12 +83,19 @@ class OidWorld:
             if isinstance(r, Exc):
                 call(storage.tpc_abort, t)
                 return r
-        if abort:
+        if abort is True:
             return call(storage.tpc_abort, t)
         r = call(storage.tpc_vote, t)
         if isinstance(r, Exc):
             call(storage.tpc_abort, t)
             return r
+        if abort == 'finish':
+            # the finish fails (the callback that delivers the
+            # invalidations raises): nothing has been committed
+            def boom(tid):
+                raise RuntimeError('scripted failure in the finish callback')
+            call(storage.tpc_finish, t, boom)
+            return call(storage.tpc_abort, t)
         tid = call(storage.tpc_finish, t)
         if not isinstance(tid, Exc):
             for oid, serial in items:
@@ -125,6 +132,7 @@ class OidWorld:
             if self.stored:
                 ops.append(('aim', 'stored'))
         ops.append(('store-issued-abort',))
+        ops.append(('store-issued-finish-fail',))
         ops.append(('dbadd',))
         return ops
 
@@ -159,6 +167,13 @@ class OidWorld:
             self.check_new(r, 'new_oid')
             self._commit(s, [(r, Z64)], abort=True)
             return 'store-abort'
+        if k == 'store-issued-finish-fail':
+            r = call(s.new_oid)
+            if isinstance(r, Exc):
+                return 'error'
+            self.check_new(r, 'new_oid')
+            self._commit(s, [(r, Z64)], abort='finish')
+            return 'store-finish-fail'
         if k == 'aim':
             pool = sorted(self.issued - set(self.stored)) \
                 if op[1] == 'issued' else sorted(self.stored)
